@@ -75,12 +75,13 @@ ZlibHeader(f) ==
 ParseZlib(S) ==
   LET n == Len(S) bad(st) == [st |-> st, end |-> 0] IN
   IF n >= 1 /\ S[1] % 16 # 8 THEN bad("method")
-  ELSE IF n >= 1 /\ S[1] \div 16 > 7 THEN bad("wrapper")
   ELSE IF n < 2 THEN bad("needmore")
   ELSE IF (S[1] * 256 + S[2]) % 31 # 0 THEN bad("wrapper")
   ELSE LET fd == Bit(S[2], 5) = 1 IN
        IF fd /\ n < 6 THEN bad("needmore")
-       ELSE [st |-> "ok", end |-> IF fd THEN 6 ELSE 2,
+       \* CINFO above 7 ("not allowed by this version of the specification", RFC 1950 2.2) only announces a window the format cannot use: a decoder
+       \* may refuse it or carry on (lenient: refusal is excused, a reported success still needs the rest to be right)
+       ELSE [st |-> "ok", end |-> IF fd THEN 6 ELSE 2, lenient |-> S[1] \div 16 > 7,
              fields |-> [info |-> S[1] \div 16, level |-> S[2] \div 64, dict_flag |-> fd, dict_id |-> IF fd THEN BE32(S, 2) ELSE <<0, 0>>]]
 
 (* ---------------- whole wrapped stream ---------------- *)
